@@ -22,7 +22,7 @@ Trace lines are tuples (time, loop_iteration, kind, subject, ...):
   sdb j | sde j | sdc j                                          atomic job co_shutdown begin / end / cancelled
   snap {name: [idle, sched, running, done, res]} | topend | lingered
 """
-import asyncio, contextvars, heapq, io, sys, time, warnings
+import asyncio, contextlib, contextvars, heapq, io, sys, time, warnings
 warnings.simplefilter("ignore", RuntimeWarning)
 from aj_common import REPO
 sys.path.insert(0, REPO)
@@ -415,12 +415,44 @@ def build(sc):
         return o
     top = mk(sc["tree"])
 
+    late = sc.get("late") or {}
+    late_add = {(a, b) for a, b in late.get("edges", [])}
+
     def link(node):
         for r in node.get("req", []):
-            objs[node["name"]].requires(objs[r])
+            if (node["name"], r) not in late_add:
+                objs[node["name"]].requires(objs[r])
         for c in node.get("children", []):
             link(c)
     link(sc["tree"])
+    if late:
+        # the graph is inspected, THEN edited (requirements added among jobs already in place, others removed), then
+        # run: whatever the inspection cached (back-links, marks, ids) must not survive into the run.
+        # `sc["tree"]` describes the final graph.
+        for a, b in late.get("removed", []):
+            objs[a].requires(objs[b])
+        with contextlib.redirect_stdout(io.StringIO()):
+            for op in late.get("inspect", []):
+                for o in [x for x in objs.values() if isinstance(x, PureScheduler)]:
+                    try:
+                        if op == "exit_jobs":
+                            list(o.exit_jobs())
+                        elif op == "list":
+                            o.list()
+                        elif op == "dot":
+                            o.dot_format()
+                        elif op == "check":
+                            o.check_cycles()
+                        elif op == "succ":
+                            o.successors_downstream(*list(o.entry_jobs())[:1])
+                        elif op == "pred":
+                            o.predecessors_upstream(*list(o.exit_jobs())[:1])
+                    except Exception:                       # noqa
+                        pass
+        for a, b in late.get("edges", []):
+            objs[a].requires(objs[b])
+        for a, b in late.get("removed", []):
+            objs[a].requires(objs[b], remove=True)
     return top, objs
 
 
